@@ -63,11 +63,16 @@ TStep ==
             ReadE(n, e.v) /\ Note(ReadG(n, e.v) \o DryG) /\ UNCHANGED <<dry, lastf, lasto>>
        [] e.e = "write" ->
             WriteE(n, e.v) /\ Note(WriteG(n, e.v) \o DryG \o << <<"write_rank", e.r = clock + 1>> >>) /\ UNCHANGED <<dry, lastf, lasto>>
-       [] e.e \in {"endfail", "readfail", "writefail", "mtimefail", "cut"} ->
-            \* a failing operation has no effect on the stores; what it may not do is let anything downstream run,
+       [] e.e = "endfail" ->
+            \* a failed attempt of a call: no effect on the stores. With retry the same call may be attempted again
+            \* (the harness counts attempts against `retry`), so it is no longer `begun`; nothing downstream may run,
             \* which the guards of later events decide
+            /\ begun' = begun \ {<<"call", n>>} /\ ncl' = [ncl EXCEPT ![n] = IF @ > 0 THEN @ - 1 ELSE 0]
+            /\ UNCHANGED <<storevars, phase, fresh, out, mt0, stale, pm, todo, done, mem, got, nrd, nwr, wr, outcome, outval, dry, lastf, lasto>>
+            /\ Note(DryG)
+       [] e.e \in {"readfail", "writefail", "mtimefail", "cut"} ->
             /\ UNCHANGED <<svars, dry, lastf, lasto>>
-            /\ Note(IF e.e \in {"readfail", "writefail", "endfail"} THEN DryG ELSE <<>>)
+            /\ Note(IF e.e \in {"readfail", "writefail"} THEN DryG ELSE <<>>)
        [] e.e = "rend" ->
             /\ UNCHANGED <<lastf, lasto>> /\ dry' = FALSE
             /\ IF e.ok THEN EndRunE(e.v) /\ Note(EndRunG(e.v))
